@@ -727,12 +727,28 @@ func c09Zombie(r *R) {
 		}
 		return failHook(2)(p)
 	}
-	sup := &Spec{Name: "sup", Strategy: vivid.OneForOneStrategy(m), Children: []*Spec{z, {Name: "sibling"}}}
+	// scheduled messages keep arriving at the zombie: from a timer owned by its sibling (a restart does not clear it) and,
+	// in some runs, from its own Loop (ticks already queued when the restart begins are drained by the zombie)
+	foreignTimer := r.Chance(60)
+	ownTimer := r.Chance(40)
+	sibling := &Spec{Name: "sibling"}
+	if foreignTimer {
+		sibling.OnLaunch = func(ctx vivid.ActorContext, p *Probe) {
+			zr, _ := ctx.System().CreateRef(ctx.Ref().GetAddress(), "/sup/z")
+			_ = ctx.Scheduler().Loop(zr, 50*time.Millisecond, w.NewCmd("foreign-tick", 0, nil))
+		}
+	}
+	if ownTimer {
+		z.OnLaunch = func(ctx vivid.ActorContext, p *Probe) {
+			_ = ctx.Scheduler().Loop(ctx.Ref(), 10*time.Millisecond, w.NewCmd("own-tick", 0, nil))
+		}
+	}
+	sup := &Spec{Name: "sup", Strategy: vivid.OneForOneStrategy(m), Children: []*Spec{z, sibling}}
 	if _, err := w.Spawn(sup); err != nil {
 		r.Fail("C09/harness", "spawn: %v", err)
 		return
 	}
-	r.Sample(map[string]any{"failing_hook": []string{"PreRestart", "Restarted", "Prelaunch"}[hook], "graceful": graceful, "release": []string{"explicit kill", "parent termination"}[release]})
+	r.Sample(map[string]any{"failing_hook": []string{"PreRestart", "Restarted", "Prelaunch"}[hook], "graceful": graceful, "release": []string{"explicit kill", "parent termination"}[release], "foreign_timer": foreignTimer, "own_timer": ownTimer})
 	vsimrt.Settle()
 	zref := w.RefBy("create", nil, "/sup/z")
 	n := 1 + r.Choose(5)
@@ -861,6 +877,13 @@ func c09Zombie(r *R) {
 		r.Fail(fmt.Sprintf("C09/zombie-release-notices events=%d parent=%d killed-twice=%v", nEvt, nParent, twice), "the released zombie produced %d ActorKilledEvent(s) and %d OnKilled at its parent (released by %s, killed twice: %v)", nEvt, nParent, []string{"explicit kill", "parent termination"}[release], twice)
 		w.DumpNotes(300)
 		return
+	}
+	// the timers kept firing all the time: the zombie (and the released actor) never ran user code
+	for _, e := range w.Events()[mark:] {
+		if e.Path == "/sup/z" && e.Kind != "Hook" {
+			r.Fail("C09/zombie-ran-user-code", "the zombie's behaviour saw %s", e.String())
+			return
+		}
 	}
 	r.Count("zombie-checked")
 }
